@@ -14,7 +14,7 @@ from mzverif.core import Sub, call, require
 
 ID = "C16"
 LEVEL = "exploration"
-TECHNIQUE = "exhaustive over all member-length vectors in {0,1,2}^k (k<=4) + Hypothesis vectors (1..7 members, lengths 0..4, forced zeros, shared member names, stale declared counts) + member-edit histories (observations interleaved with edits of members and with storing the live collection) + offsets handed out overwritten, sibling collections, totals beyond 32768; oracle = explicit concatenation, compared by object identity for every index"
+TECHNIQUE = "exhaustive over all member-length vectors in {0,1,2}^k (k<=4) + Hypothesis vectors (1..7 members, lengths 0..4, forced zeros, shared member names, stale declared counts) + member-edit histories (observations interleaved with edits of members and with storing the live collection) + offsets handed out overwritten, sibling collections, totals beyond 32768; oracle = explicit concatenation, compared by object identity for every index; histories with tokenization under a limit before the flattened list is read, member-level config updates"
 RULE = (
     "case = (vector of member lengths, member grid sizes, construction route: hand-built members or MazeDatasetCollection.generate). "
     "Every index 0 <= i < len is queried (as int and as numpy integer). Non-trivial = at least one empty member and at least two "
